@@ -5,6 +5,7 @@ Every property with a registered rule set is claimed (level "other": static
 analysis deciding structural necessary conditions); the rest are listed under
 not_applicable with a reason."""
 import json, subprocess, os, sys
+RULE_FILES = json.load(open("/verif/tools/rule_files.json"))
 
 V = "/verif"
 ENV = "GOFLAGS=-mod=mod GOPROXY=off GOSUMDB=off GOTOOLCHAIN=local GOWORK=off"
@@ -33,7 +34,7 @@ for p in props:
                 "text": "Static analysis of /repo's current source (type-checked program, go/ssa, call graph): decides, for every path of the anchored functions, these structural necessary conditions of the property — " + cl["decided"] + " It does not decide: " + cl["not_decided"],
                 "design_ref": "DESIGN.md §4 " + pid,
             },
-            "level_note": "Trusted base: go/packages+go/types+go/ssa (x/tools v0.29.0) model of the default-GOOS/GOARCH build without tests (thorough also GOARCH=386 and GOOS=windows); rule tables in checker/cmd/bytomcheck/rules_" + pid.lower() + ".go; " + cl.get("assumes", "dynamic calls resolved by CHA (quick) / VTA (thorough); nothing is executed."),
+            "level_note": "Trusted base: go/packages+go/types+go/ssa (x/tools v0.29.0) model of the default-GOOS/GOARCH build without tests (thorough also GOARCH=386 and GOOS=windows); rule tables in checker/cmd/bytomcheck/" + RULE_FILES.get(pid, "rules_*.go") + " (func rule" + pid + "); x/tools is the local copy under checker/third_party/tools with one added file (go/ssa/bytomcheck_inline.go); " + cl.get("assumes", "dynamic calls resolved by CHA (quick) / VTA (thorough); nothing is executed."),
             "technique": cl["technique"],
         })
     else:
